@@ -102,6 +102,13 @@ Example C45_message_is_name_nonvacuous :
   full_name_valid (map (fun n => n2b (N.of_nat n)) [103; 46; 112; 46; 65; 110; 121]%nat) = true.
 Proof. vm_compute. reflexivity. Qed.
 
+(* the validity check inside MessageName accepts exactly ident(.ident)*; in particular the fuel of
+   the model's loop never runs out *)
+Theorem C45_full_name_valid_iff :
+  forall s, full_name_valid s = true <-> full_name s.
+Proof. exact full_name_valid_iff. Qed.
+Print Assumptions C45_full_name_valid_iff.
+
 (* MessageName and MessageIs agree, for arbitrary URLs *)
 Theorem C45_message_name_is_agree :
   (forall url name, full_name_valid name = true -> message_is url name = true -> message_name url = name) /\
